@@ -158,3 +158,13 @@ pub fn vx_splice<T>(v: &mut Vec<T>, a: usize, b: usize, w: Vec<T>) -> (r: Vec<T>
     ensures final(v)@ == old(v)@.subrange(0, a as int) + w@ + old(v)@.subrange(b as int, old(v)@.len() as int),
         r@ == old(v)@.subrange(a as int, b as int),
 { unimplemented!() }
+
+impl<T> SeqIter<T> {
+    /// itertools `sorted()`: the same items in ascending order (A-iter; only "the same items" is stated -- what the
+    /// order is depends on `Ord` of the item type).  Not called by the code under contract today; present so that a
+    /// body that sorts before emitting type-checks and has to prove that the order did not matter.
+    #[verifier::external_body]
+    pub fn sorted(self) -> (r: SeqIter<T>)
+        ensures r@.len() == self@.len(), r@.to_multiset() == self@.to_multiset(),
+    { unimplemented!() }
+}
